@@ -366,4 +366,110 @@ def images : List (Obs K) → List (List K)
 
 end
 
+/-! ### Wavefront objects that are re-used between integrations (round 6, seeded class C17-10)
+
+`integrate(wf, dt, w)` asks the wavefront for its power **at the call**: `|E|²·weights` of what the object holds
+then.  The caller may keep the object, change its electric field (item assignment, `*=`, the setter, the array the
+wavefront wraps) or the weights of its grid, and integrate it again.  Nothing is memoised: `Wf.power` is a function of
+the current contents. -/
+
+section
+variable {K : Type} [Add K] [Zero K] [Mul K]
+
+/-- a Wavefront object: real and imaginary part of the electric field, and the weights of its grid -/
+structure Wf (K : Type) where
+  re : List K
+  im : List K
+  wt : List K
+
+/-- `Wavefront.power` = `|E|² · grid.weights`, pixel by pixel -/
+def Wf.power (f : Wf K) : List K :=
+  List.zipWith (· * ·) (List.zipWith (fun a b => a * a + b * b) f.re f.im) f.wt
+
+inductive WOp (K : Type) where
+  | create (re im wt : List K)              -- a new Wavefront object (handle = number of objects before)
+  | setField (j : Nat) (re im : List K)     -- any change of the electric field of object `j` (in place or through the setter)
+  | setWeights (j : Nat) (wt : List K)      -- `wf.grid.weights = …`, `wf.electric_field.grid = …`
+  | integrate (j : Nat) (dt w : K)          -- `det.integrate(wf_j, dt, w)`
+  | readOut
+
+def wfAt (l : List (Wf K)) (j : Nat) : Wf K := l.getD j ⟨[], [], []⟩
+
+/-- the caller's side of an operation: what it does to the wavefront objects -/
+def wfsStep (l : List (Wf K)) : WOp K → List (Wf K)
+  | .create re im wt => l ++ [⟨re, im, wt⟩]
+  | .setField j re im => l.set j { wfAt l j with re := re, im := im }
+  | .setWeights j wt => l.set j { wfAt l j with wt := wt }
+  | _ => l
+
+structure WSt (K : Type) where
+  det : St K := {}
+  wfs : List (Wf K) := []
+
+def wStep (g : Geom) (st : WSt K) (op : WOp K) : WSt K × Option (Obs K) :=
+  match op with
+  | .integrate j dt w =>
+    let r := step g st.det (.integrate (wfAt st.wfs j).power dt w)
+    ({ det := r.1, wfs := st.wfs }, some r.2)
+  | .readOut =>
+    let r := step g st.det .readOut
+    ({ det := r.1, wfs := st.wfs }, some r.2)
+  | op => ({ det := st.det, wfs := wfsStep st.wfs op }, none)
+
+/-- the observations of a history with re-used wavefront objects -/
+def wRun (g : Geom) : WSt K → List (WOp K) → List (Obs K)
+  | _, [] => []
+  | st, op :: ops =>
+    match (wStep g st op).2 with
+    | some o => o :: wRun g (wStep g st op).1 ops
+    | none => wRun g (wStep g st op).1 ops
+
+/-- the same history at the value level: every integration sees the power of what its wavefront holds at the call -/
+def wValueOps : List (Wf K) → List (WOp K) → List (Op K)
+  | _, [] => []
+  | l, .integrate j dt w :: ops => .integrate (wfAt l j).power dt w :: wValueOps l ops
+  | l, .readOut :: ops => .readOut :: wValueOps l ops
+  | l, op :: ops => wValueOps (wfsStep l op) ops
+
+end
+
+/-! ### the grid label through the noisy pipeline, parameters given as Fields on any grid (round 6, seeded class C17-11)
+
+A binary operation of hcipy Fields keeps the grid of its **first** Field operand; a plain array or scalar has no
+grid (`none`).  `NoisyDetector`: `acc = acc + binned·dt·w` (binned is on the detector grid), `acc = acc + dark·dt·w`,
+read-out: `out = acc.copy()` (or zeros on the detector grid), `out = out * flat`, `out = out + normal(…)` (an ndarray). -/
+
+/-- grid of `a ∘ b`: the first operand that has one -/
+def tagOp : Option GTag → Option GTag → Option GTag
+  | some a, _ => some a
+  | none, b => b
+
+structure NTSt where
+  acc : Option GTag := none
+  dark : Option GTag := none
+  flat : Option GTag := none
+  sigma : Option GTag := none
+
+inductive NTOp where
+  | integrate (p : PTag)
+  | readOut
+  | setDark (m : Option GTag)
+  | setFlat (m : Option GTag)
+  | setSigma (m : Option GTag)
+
+def ntStep (st : NTSt) : NTOp → NTSt × Option GTag
+  | .integrate p => ({ st with acc := tagOp (tagOp st.acc (some (relabel p))) st.dark }, none)
+  | .readOut => ({ st with acc := none }, tagOp (tagOp (some (st.acc.getD .detector)) st.flat) none)
+  | .setDark m => ({ st with dark := m }, none)
+  | .setFlat m => ({ st with flat := m }, none)
+  | .setSigma m => ({ st with sigma := m }, none)
+
+/-- the grid tags of the images a history of the noisy detector returns -/
+def ntRun : NTSt → List NTOp → List GTag
+  | _, [] => []
+  | st, op :: ops =>
+    match (ntStep st op).2 with
+    | some t => t :: ntRun (ntStep st op).1 ops
+    | none => ntRun (ntStep st op).1 ops
+
 end HcipyVerif.Detector
